@@ -796,7 +796,7 @@ func cmdCheck(args []string) {
 		"closed world for AST interfaces: the Dyn datatype has exactly the node types found in the loaded packages",
 		"receivers *converter / *Parser / *transpiler are non-nil and unaliased",
 		"trusted: go/packages + go/ssa construction of the analysed functions; the govc engine itself; the SMT solvers",
-		"node invariants of the AST are used as facts for every interface value (closed world, nodes immutable once converted to an interface); they are proved where a node is converted (obligations ...#node-invariant#...)",
+		"node invariants of the AST are assumed for the AST values that a query takes apart (ground instances only: closed world, nodes immutable once converted to an interface); they are proved where a node is converted (obligations ...#node-invariant#...)",
 		"ValueType / StatementType are declared total on nodes that are there; the declaration is justified by the safety obligations of their implementations (structural induction over the finite tree) and by nothing else",
 		"vacuity guards examine the quantifier-free part of the assumptions only; a guard that is not decided in time is a note, not a violation",
 		"termination is proved for the loops that have a decreases clause (the lexer's three loops) and nowhere else",
